@@ -1,7 +1,10 @@
 """correspondence stream `kern`: the Lean ports (Model/Kernels.lean, evaluated in IEEE double by the
 driver) of BHJM_dipole, BHJM_magnet_sphere, current_polyline_Hfield and the Cuboid mask dispatch
 against the real functions, row by row.  Floats travel as 64-bit patterns; values are compared
-with |a-b| <= 1e-10*max(|a|,|b|,scale) (operation order differs slightly), masks exactly."""
+with |a-b| <= 1e-10*max(|a|,|b|,scale) (operation order differs slightly; 1e-7 for the triangle
+sheets, whose closed form cancels near edge extensions), masks exactly.  Also: BHJM_triangle,
+BHJM_magnet_tetrahedron (chirality fix, inside test, four sheets), BHJM_circle with the Bulirsch cel
+iteration (special cases on the axis / on the wire / zero diameter).""" 
 import struct
 
 import numpy as np
@@ -42,12 +45,15 @@ def run_stream(ctx, n):
     from magpylib._src.fields.field_BH_dipole import BHJM_dipole
     from magpylib._src.fields.field_BH_polyline import current_polyline_Hfield
     from magpylib._src.fields.field_BH_sphere import BHJM_magnet_sphere
+    from magpylib._src.fields.field_BH_circle import BHJM_circle
+    from magpylib._src.fields.field_BH_tetrahedron import BHJM_magnet_tetrahedron
+    from magpylib._src.fields.field_BH_triangle import BHJM_triangle
 
     rng = ctx.rng
     lines, expect, meta = [], [], []
     for i in range(n):
         nps = np.random.default_rng(rng.randrange(2**31))
-        kind = ["dipole", "sphere", "segment", "cuboidmask", "cuboid"][i % 5]
+        kind = ["dipole", "sphere", "segment", "cuboidmask", "cuboid", "triangle", "tetra", "circle", "tetrainside"][i % 9]
         sc = 10.0 ** nps.uniform(-3, 3)
         f = rng.choice("BHJM")
         if kind == "dipole":
@@ -74,6 +80,63 @@ def run_stream(ctx, n):
             lines.append(f"kern segment {bits(cur)} {enc(p1)} {enc(p2)} {enc(po)}")
             scale = abs(cur) / (4 * np.pi * max(np.linalg.norm(off), 1e-300))
             f = "H"
+        elif kind == "triangle":
+            v = nps.uniform(-1, 1, (3, 3)) * sc
+            pol = nps.uniform(-1, 1, 3)
+            k = rng.random()
+            if k < 0.4:  # generic observer at any distance
+                x = v.mean(axis=0) + nps.uniform(-1, 1, 3) * sc * 10 ** nps.uniform(-1.5, 1.5)
+            elif k < 0.7:  # above / below the sheet, footpoint inside or outside the triangle
+                w = nps.uniform(-0.5, 1.5, 3)
+                w /= w.sum() if abs(w.sum()) > 0.2 else 1.0
+                nn = np.cross(v[1] - v[0], v[2] - v[0])
+                x = w @ v + nn / np.linalg.norm(nn) * sc * 10 ** nps.uniform(-2, 0.5) * rng.choice([-1, 1])
+            else:  # near the extension of an edge (the branch switch of the edge integral), off the edge itself
+                e = rng.randrange(3)
+                t = rng.choice([nps.uniform(1.2, 3), nps.uniform(-2, -0.2)])
+                x = v[e] + t * (v[(e + 1) % 3] - v[e]) + nps.uniform(-1, 1, 3) * sc * 10 ** nps.uniform(-3.5, -1.5)
+            r = BHJM_triangle(f, x[None], v[None].copy(), pol[None])[0]
+            lines.append(f"kern triangle {f} {enc(v)} {enc(pol)} {enc(x)}")
+            scale = np.linalg.norm(pol) * (1 if f in "BJ" else 1 / mu_0) + 1e-300
+        elif kind in ("tetra", "tetrainside"):
+            while True:
+                v = nps.uniform(-1, 1, (4, 3)) * sc
+                vol = abs(np.linalg.det(v[1:] - v[0])) / sc**3
+                if vol > 0.05:
+                    break
+            pol = nps.uniform(-1, 1, 3)
+            w = nps.dirichlet([1, 1, 1, 1]) if rng.random() < 0.5 else nps.uniform(-0.6, 1.2, 4)
+            w = w / w.sum() if abs(w.sum()) > 0.2 else np.array([0.25] * 4)
+            if min(abs(w).min(), abs(w - 1).min()) < 1e-3:  # keep clear of the faces: the inside test is a float comparison
+                w = np.array([0.1, 0.2, 0.3, 0.4])
+            x = w @ v
+            if kind == "tetrainside":
+                inside = bool(np.any(BHJM_magnet_tetrahedron("J", x[None], v[None].copy(), np.array([[0.3, 0.5, 0.7]]))[0] != 0))
+                lines.append(f"kern tetrainside {enc(v)} {enc(x)}")
+                expect.append(("mask", str(inside).lower(), None))
+                meta.append({"kind": kind, "v": v.tolist(), "x": x.tolist()})
+                continue
+            r = BHJM_magnet_tetrahedron(f, x[None], v[None].copy(), pol[None])[0]
+            lines.append(f"kern tetra {f} {enc(v)} {enc(pol)} {enc(x)}")
+            scale = np.linalg.norm(pol) * (1 if f in "BJ" else 1 / mu_0) + 1e-300
+        elif kind == "circle":
+            d = nps.uniform(0.5, 2) * sc * rng.choice([1, 1, 1, -1])
+            cur = nps.uniform(-3, 3)
+            k = rng.random()
+            r0 = abs(d) / 2
+            if k < 0.15:  # on the axis (exactly)
+                x = np.array([0.0, 0.0, nps.uniform(-3, 3) * r0])
+            elif k < 0.25:  # in the plane of the loop
+                x = np.array([*(nps.uniform(-3, 3, 2) * r0), 0.0])
+            elif k < 0.45:  # close to the wire
+                ph = nps.uniform(0, 2 * np.pi)
+                rr = r0 * (1 + rng.choice([-1, 1]) * 10 ** nps.uniform(-6, -1))
+                x = np.array([rr * np.cos(ph), rr * np.sin(ph), r0 * rng.choice([-1, 1]) * 10 ** nps.uniform(-6, -1)])
+            else:
+                x = nps.uniform(-1, 1, 3) * r0 * 10 ** nps.uniform(-2, 2)
+            r = BHJM_circle(f, x[None], np.array([d]), np.array([cur]))[0]
+            lines.append(f"kern circle {f} {bits(d)} {bits(cur)} {enc(x)}")
+            scale = abs(cur) / (2 * r0) * (mu_0 if f == "B" else 1) * 1e-3 + 1e-300
         elif kind == "cuboid":
             dim, pol = nps.uniform(0.5, 2, 3) * sc, nps.uniform(-1, 1, 3) * rng.choice([1, 1, 1, 0])
             if rng.random() < 0.2:
@@ -116,14 +179,15 @@ def run_stream(ctx, n):
                 ok = False
             else:
                 both_nan = np.isnan(got) & np.isnan(exp)
-                ok = bool(np.all(both_nan | (np.abs(got - exp) <= 1e-10 * np.maximum(np.maximum(np.abs(got), np.abs(exp)), scale))))
+                tol = 1e-7 if m["kind"] in ("triangle", "tetra") else 1e-10  # triangle sheets: cancellation near edge extensions amplifies the different operation order
+                ok = bool(np.all(both_nan | (np.abs(got - exp) <= tol * np.maximum(np.maximum(np.abs(got), np.abs(exp)), scale))))
                 if np.any(exp != 0):
                     stats["nonzero_rows"] += 1
         if not ok:
             stats["disagreements"] += 1
             if stats["disagreements"] <= 3:
                 ctx.broken.append({"kind": "correspondence", "name": "kern:" + m["kind"],
-                                   "detail": {"meta": m, "model": str(got), "real": str(exp)}})
+                                   "detail": {"meta": m, "model": str(got), "real": str(exp), "maxreldiff": float(np.max(np.abs(np.asarray(got, dtype=float) - exp)) / max(np.max(np.abs(exp)), scale)) if not isinstance(got, str) else None}})
         elif len(samples) < 3 and typ == "vec":
             samples.append({**m, "real": np.asarray(exp).tolist()})
     stats["samples"] = samples
